@@ -154,7 +154,11 @@ m("C13-continue-after-late", "C13", "C13.R", EX,
   "                let _ = max_steps;", "ContinueAfter bound never enforced in schedule()")
 # ---- C14 ------------------------------------------------------------------------------------------------
 m("C14-labels-not-cleared", "C14", "LABELS", EX,
-  "        LABELS.with(|cell| cell.borrow_mut().clear());\n", "", "labels leak to the next execution")
+  "        LABELS.with(|cell| cell.borrow_mut().clear());\n\n        EXECUTION_STATE.set(", "\n        EXECUTION_STATE.set(",
+  "regression of the D8 fix: labels of a failed run leak into the next run on the thread", suite="pass")
+m("CTL-C14-cleanup-clear-removed", "C14", "", EX,
+  "        LABELS.with(|cell| cell.borrow_mut().clear());\n\n        #[cfg(debug_assertions)]", "\n        #[cfg(debug_assertions)]",
+  "the (now redundant) clear of LABELS in cleanup is dropped: every execution still starts with empty labels (reset on entry)", silent=True)
 m("C14-new-static", "C14", "LAST_TASKS", EX,
   "thread_local! {\n    pub static LABELS:", "thread_local! {\n    pub static LAST_TASKS: std::cell::Cell<usize> = const { std::cell::Cell::new(0) };\n}\n\nthread_local! {\n    pub static LABELS:",
   "new thread-local without reset")
@@ -274,8 +278,8 @@ m("C04-holder-before-acquire", "C04", "holder-after-acquire", "shuttle-std/src/s
   "try_lock records itself as holder before it owns the permit")
 # ---- behaviour-preserving controls (refactorings a maintainer might do): every check must stay silent --------------------
 m("CTL-C14-extract-reset-helper", "C14", "", EX,
-  "        TASK_ID_TO_TAGS.with(|cell| cell.borrow_mut().clear());\n        LABELS.with(|cell| cell.borrow_mut().clear());\n",
-  "        fn reset_side_tables() {\n            TASK_ID_TO_TAGS.with(|cell| cell.borrow_mut().clear());\n            LABELS.with(|cell| cell.borrow_mut().clear());\n        }\n        reset_side_tables();\n",
+  "        TASK_ID_TO_TAGS.with(|cell| cell.borrow_mut().clear());\n        LABELS.with(|cell| cell.borrow_mut().clear());\n\n        EXECUTION_STATE.set(",
+  "        fn reset_side_tables() {\n            TASK_ID_TO_TAGS.with(|cell| cell.borrow_mut().clear());\n            LABELS.with(|cell| cell.borrow_mut().clear());\n        }\n        reset_side_tables();\n\n        EXECUTION_STATE.set(",
   "the two clears move into a local helper", silent=True)
 m("CTL-C17-wake-reordered", "C17", "", "shuttle-engine/src/runtime/task/mod.rs",
   "        self.woken = true;\n        if self.state == TaskState::Sleeping {\n            self.unblock();\n        }",
@@ -301,3 +305,23 @@ m("CTL-C11-num-points-split", "C11", "", PCT,
   "            let num_points = std::cmp::min(self.max_depth - 1, self.max_steps - 1);",
   "            let by_depth = self.max_depth - 1;\n            let by_steps = self.max_steps - 1;\n            let num_points = std::cmp::min(by_depth, by_steps);",
   "min operands through temporaries", silent=True)
+m("CTL-C07-order-remove0", "C07", "", "shuttle-engine/src/runtime/storage.rs",
+  "        let key = self.order.pop_front()?;",
+  "        if self.order.is_empty() {\n            return None;\n        }\n        let key = self.order.remove(0)?;",
+  "front taken with remove(0) (order-preserving)", silent=True)
+m("CTL-C13-reset-helper", "C13", "", "shuttle-engine/src/current.rs",
+  "    ExecutionState::with(|s| s.steps_reset_at = CurrentSchedule::len());",
+  "    let now = CurrentSchedule::len();\n    ExecutionState::with(|s| s.steps_reset_at = now);",
+  "reset value computed outside the closure", silent=True)
+m("CTL-C08-flag-read-then-clear", "C08", "", EX,
+  "        let is_yielding = std::mem::replace(&mut self.has_yielded, false);",
+  "        let is_yielding = self.has_yielded;\n        self.has_yielded = false;",
+  "flag consumed with read + store instead of mem::replace", silent=True)
+m("CTL-C06-predicate-inlined-temp", "C06", "", "shuttle-std/src/sync/mpsc.rs",
+  "        is_full || !state.waiting_senders.is_empty() || (is_rendezvous && state.waiting_receivers.is_empty())",
+  "        if is_full {\n            return true;\n        }\n        if !state.waiting_senders.is_empty() {\n            return true;\n        }\n        is_rendezvous && state.waiting_receivers.is_empty()",
+  "disjunction written as early returns", silent=True)
+m("CTL-C18-poll-match", "C18", "", "shuttle-engine/src/future/batch_semaphore.rs",
+  "        if self.waiter.has_permits.load(Ordering::SeqCst) {\n            assert!(!self.waiter.is_queued.load(Ordering::SeqCst));\n            self.completed = true;",
+  "        let granted = self.waiter.has_permits.load(Ordering::SeqCst);\n        if granted {\n            assert!(!self.waiter.is_queued.load(Ordering::SeqCst));\n            self.completed = true;",
+  "has_permits read into a named local", silent=True)
